@@ -49,8 +49,17 @@ OPS = [
 ]
 
 
+ENUMS = ["State", "InstallSource", "StartUpdateCheckResponse", "EventType", "EventResult", "EventErrorCode", "CheckDecision", "UpdateDecision",
+         "RebootAfterUpdate", "Action", "OmahaStatus", "UpdateCheckFailureReason", "OmahaResponse", "UpdateCheckAssertion", "AppInstallResult"]
+
+
 def mutants_of(lines, lo, hi):
     out = []
+    # unit variants of the protocol / state enums as they occur in this file: swap one for another
+    variants = {}
+    for l in lines[lo:hi]:
+        for m in re.finditer(r"\b(%s)::([A-Z]\w+)\b(?!\s*[\({])" % "|".join(ENUMS), l.split("//")[0]):
+            variants.setdefault(m.group(1), set()).add(m.group(2))
     for i in range(lo, hi):
         l = lines[i]
         code = l.split("//")[0]
@@ -70,6 +79,23 @@ def mutants_of(lines, lo, hi):
                 for r in reps:
                     new = code[:m.start()] + r + code[m.end():] + l[len(code):]
                     out.append((i, "%s->%s" % (m.group(0).strip(), r.strip()), new))
+        for m in re.finditer(r"\b(%s)::([A-Z]\w+)\b(?!\s*[\({])" % "|".join(ENUMS), code):
+            if "=>" in code and code.index("=>") > m.start():
+                continue                                   # a pattern, not a value
+            for v in sorted(variants.get(m.group(1), ())):
+                if v != m.group(2):
+                    out.append((i, "%s::%s->%s" % (m.group(1), m.group(2), v), code[:m.start(2)] + v + code[m.end(2):] + l[len(code):]))
+                    break
+        m = re.search(r"= Some\((.*)\);\s*$", code)
+        if m:
+            out.append((i, "Some->None", code[:m.start()] + "= None;\n"))
+        # negate the condition of a plain `if` / `else if` / `while`
+        m = re.match(r"^(\s*(?:\} else )?(?:if|while) )(?!let )(.+?)( \{\s*)$", code.rstrip("\n") if code.endswith("\n") else code)
+        if m and "{" not in m.group(2):
+            out.append((i, "negate-condition", m.group(1) + "!(" + m.group(2) + ")" + m.group(3) + l[len(code):] + ("" if l.endswith("\n") and (m.group(3) + l[len(code):]).endswith("\n") else "")))
+        for a, b in (("break;", "continue;"), ("continue;", "break;"), (" += ", " -= "), (" -= ", " += ")):
+            if a in code:
+                out.append((i, "%s->%s" % (a.strip(), b.strip()), code.replace(a, b, 1) + l[len(code):]))
         # statement deletion: a call statement on its own line
         st = code.strip()
         if st.endswith(";") and not st.startswith(("let ", "return", "use ", "pub ", "}", "break", "continue")) and "=" not in st.split("(")[0]:
